@@ -36,7 +36,7 @@ DESCR = {
  'C16': ('G + V', 'MergePatch: all (target, patch) pairs of the depth-2 universe; from_diff traces validated by Trace_C16'),
  'C17': ('G', 'Reflect: 80 types (every traits macro flavour, std containers, tuple / pair / array / bitset / variant / optional / smart pointers / chrono, 64-bit and floating kinds) x values (4 formats, 3 routes) and x fault-derived documents (verdict predicted)'),
  'C18': ('G + V', 'Csv (RFC 4180 + jsoncons options): options x tables; TOON: round-trip law over trees, strings / keys in every position, and primitives (null, booleans, integers, decimals) in every position'),
- 'C19': ('V', 'AllocLedger: fork per (scenario, n): the n-th allocation fails; Trace_C19 requires ledger balance, no double free, size-matched deallocation, strong / basic guarantee per scenario'),
+ 'C19': ('V', 'AllocLedger: fork per (scenario, n) over 38 scenarios (parse, copy, assign, insert, merge, erase, sort, dump, four binary formats, CSV, TOON, JSONPath query / replace, JMESPath, pointer, patch, merge patch, diffs, schema, cursor, typed encode / decode, stateful allocators): the n-th allocation fails; Trace_C19 requires ledger balance, no double free, size-matched deallocation, strong / basic guarantee per scenario'),
  'C20': ('model + V', 'SharedReaders model-checked; TSan harness with TLC-generated thread / stream / skew assignments over built-in operations, a curated artefact pool (every format, every JSONPath / JMESPath built-in, all drafts) and a pool sampled from the C11 / C12 cases; Trace_C20'),
 }
 def human(n):
